@@ -70,7 +70,7 @@ Inductive rt_tag := PTx (b : list Z) | PNack (r c mx : Z) | PAcked.
 
 Definition rt_proj1 (u : Z) (o : rt_out) : list rt_tag :=
   match o with
-  | RoTx _ u' _ b => if u' =? u then [PTx b] else []
+  | RoTx _ u' _ b _ _ => if u' =? u then [PTx b] else []
   | RoNack _ u' _ r _ c mx => if u' =? u then [PNack r c mx] else []
   | RoAcked _ u' => if u' =? u then [PAcked] else []
   | _ => []
@@ -138,7 +138,7 @@ Qed.
 Lemma rt_rel_add : forall tr k ns t s m b T mx,
   0 <= mx <= 255 ->
   rt_rel tr k ns ->
-  rt_rel (tr ++ [RoTx t k s b; RoSent m]) (k + 1) (sq_mk_node k s m 0 T mx b :: ns).
+  rt_rel (tr ++ [RoTx t k s b 0 T; RoSent m]) (k + 1) (sq_mk_node k s m 0 T mx b :: ns).
 Proof.
   intros tr k ns t s m b T mx Hmx (K & D & F & C).
   assert (Fresh : ~ In k (map qn_uid ns)).
@@ -164,7 +164,7 @@ Qed.
 Lemma rt_rel_bump : forall tr k n ns t,
   qn_cnt n < qn_max n ->
   rt_rel tr k (n :: ns) ->
-  rt_rel (tr ++ [RoTx t (qn_uid n) (qn_sess n) (qn_bytes n)]) k
+  rt_rel (tr ++ [RoTx t (qn_uid n) (qn_sess n) (qn_bytes n) ((qn_cnt n + 1) mod 256) (qn_timeout n)]) k
          (sq_mk_node (qn_uid n) (qn_sess n) (qn_mid n) ((qn_cnt n + 1) mod 256) (qn_timeout n)
                      (qn_max n) (qn_bytes n) :: ns).
 Proof.
